@@ -25,6 +25,22 @@ impl<const N: usize> Exec<N> {
         self.view.steps_done += 1;
         match r {
             Ok(a) => {
+                if a == Applied::Done && self.record.is_some() {
+                    // the full observation of every live graph goes into the replica trace
+                    let mut line = format!("#{idx} {}", s.kind());
+                    for i in 0..self.gs.len() {
+                        if self.usable(i) && !self.view.insts[i].as_ref().unwrap().poisoned {
+                            match self.deep(i) {
+                                Ok(o) => line.push_str(&format!(" g{i}={:016x}", o.hash())),
+                                Err(mut e) => {
+                                    e.step = idx;
+                                    return Err(e);
+                                }
+                            }
+                        }
+                    }
+                    self.rec(|| line);
+                }
                 if a == Applied::Done {
                     self.stats.bump(&format!("steps.{}", s.kind()));
                 } else {
@@ -52,7 +68,8 @@ impl<const N: usize> Exec<N> {
                 };
                 let fam = self.view.next_family;
                 self.view.next_family += 1;
-                self.new_inst(*i, g, RefGraph::new(cap, N), Origin::Fresh, fam)?;
+                let (mc, mn) = (self.view.cfg.contract_cap(), self.view.cfg.contract_n());
+                self.new_inst(*i, g, RefGraph::new(mc, mn), Origin::Fresh, fam)?;
                 self.hash_step(s, "");
                 Ok(Applied::Done)
             }
@@ -153,7 +170,7 @@ impl<const N: usize> Exec<N> {
                 Ok(Applied::Done)
             }
             Step::Reseed { seed } => {
-                sodg::verif::collections::set_hash_seed(*seed);
+                sodg::verif::collections::set_hash_seed(*seed ^ self.view.cfg.hash_xor);
                 self.stats.bump("fault.hash_reseed");
                 Ok(Applied::Done)
             }
@@ -185,12 +202,16 @@ impl<const N: usize> Exec<N> {
         let si = self.view.insts[src].as_ref().unwrap();
         let (m, fam, poisoned) = (si.m.clone(), si.family, si.poisoned);
         let (readd, merged, src_next) = (si.readd_seen, si.merged, si.next_v);
+        let (cl, log) = (si.crossed_load, si.oplog.clone());
         self.new_inst(dst, c, m, Origin::Cloned, fam)?;
         {
             let di = self.view.insts[dst].as_mut().unwrap();
             di.poisoned = poisoned;
             di.readd_seen = readd;
             di.merged = merged;
+            di.crossed_load = cl;
+            di.crossed_clone = true;
+            di.oplog = log;
         }
         self.stats.bump("probe.clone_made");
         if poisoned {
@@ -271,6 +292,10 @@ impl<const N: usize> Exec<N> {
                         src_version: inst.version,
                         len: size_on_disk,
                         next_v: inst.next_v,
+                        oplog: inst.oplog.clone(),
+                        crossed_clone: inst.crossed_clone,
+                        merged: inst.merged,
+                        readd_seen: inst.readd_seen,
                     }));
                     if inst.m.present.values().any(|v| v.unread) {
                         self.stats.bump("probe.save_with_unread_pending");
@@ -360,7 +385,7 @@ impl<const N: usize> Exec<N> {
         match (now, r) {
             (_, Err(Caught::Crash)) => unreachable!("no crash is injected into load"),
             (OnDisk::Unknown, Ok(Ok(g))) => {
-                let cap = self.view.cfg.cap;
+                let cap = self.view.cfg.contract_cap();
                 let fam = self.view.next_family;
                 self.view.next_family += 1;
                 // nothing is known about this graph: only the memory observer watches it
@@ -378,6 +403,9 @@ impl<const N: usize> Exec<N> {
                     age: 0,
                     readd_seen: false,
                     merged: false,
+                    crossed_load: true,
+                    crossed_clone: false,
+                    oplog: Vec::new(),
                 });
                 self.stats.bump("damaged.loaded_ok");
                 Ok(Applied::Done)
@@ -444,6 +472,14 @@ impl<const N: usize> Exec<N> {
                 let fam = self.view.next_family;
                 self.view.next_family += 1;
                 self.new_inst(dst, g, m, Origin::Loaded, fam)?;
+                {
+                    let di = self.view.insts[dst].as_mut().unwrap();
+                    di.crossed_load = true;
+                    di.crossed_clone = st.crossed_clone;
+                    di.merged = st.merged;
+                    di.readd_seen = st.readd_seen;
+                    di.oplog = st.oplog.clone();
+                }
                 self.stats.bump("load.complete_ok");
                 if self.view.paths[path].dirty_since_fault {
                     self.stats.bump("probe.load_after_fault_on_path");
